@@ -4,8 +4,12 @@ use crate::engine::CheckResult;
 use crate::par::{Consumer, Evt, MockE, Obs, ParCfg};
 use crate::{ensure, fail};
 
-pub fn expected_result(cfg: &ParCfg) -> Option<Result<(), MockE>> {
-    let di = cfg.dataset_init_fail_at.filter(|j| *j <= cfg.queue_len);
+/// The result the call must return, given which init closure was observed to fail.
+/// dataset_init is called at most queue_len + 1 times; when the reader finishes early the filling loop
+/// stops and a failure scripted for a later call never happens - so the expectation is derived from the
+/// observed failure, not from the script.
+pub fn expected_result(cfg: &ParCfg, o: &Obs) -> Option<Result<(), MockE>> {
+    let di = o.events.iter().find_map(|e| if let Evt::InitFailed { call } = e { Some(*call) } else { None });
     match (di, cfg.reader_init_fails) {
         (Some(_), true) => None, // either error, depending on the schedule
         (Some(j), false) => Some(Err(MockE::DatasetInit(j))),
@@ -26,7 +30,7 @@ pub fn termination(cfg: &ParCfg, o: &Obs) -> CheckResult {
             fail!(format!("mock/callback-after-return/{}", what), "{} ran after the parallel function had returned", what);
         }
     }
-    match (expected_result(cfg), o.result.as_ref().unwrap()) {
+    match (expected_result(cfg, o), o.result.as_ref().unwrap()) {
         (Some(want), got) => ensure!(
             *got == want,
             format!("mock/wrong-result/{}", match want { Ok(()) => "expected-ok", Err(MockE::ReaderInit) => "reader-init-error-lost", Err(MockE::DatasetInit(_)) => "dataset-init-error-lost" }),
@@ -122,7 +126,7 @@ pub fn recycling(cfg: &ParCfg, o: &Obs) -> CheckResult {
         created.len(),
         cfg.queue_len + 1
     );
-    if faultless(cfg) && o.result == Some(Ok(())) {
+    if faultless(cfg) && o.result == Some(Ok(())) && cfg.n_sets > 0 && !o.events.iter().any(|e| matches!(e, Evt::InitFailed { .. })) {
         ensure!(
             created.len() == cfg.queue_len + 1,
             "mock/data-set-count",
@@ -169,7 +173,7 @@ pub fn reader_error(cfg: &ParCfg, o: &Obs) -> CheckResult {
     for (i, c) in recv.iter().enumerate() {
         ensure!(*c <= 1, "mock/set-duplicated", "set {} was received {} times", i, c);
     }
-    let unfaulted_inits = !cfg.reader_init_fails && cfg.dataset_init_fail_at.filter(|j| *j <= cfg.queue_len).is_none();
+    let unfaulted_inits = !cfg.reader_init_fails && !o.events.iter().any(|e| matches!(e, Evt::InitFailed { .. }));
     if unfaulted_inits {
         match cfg.consumer {
             Consumer::Drain if !cfg.stop_at_error => {
